@@ -381,6 +381,30 @@ pub fn run(ctx: &Ctx) -> i32 {
             }
         }
     }
+    // split patterns with scalar columns next to array / TIMESTAMP columns over higher field indexes
+    for (re, sep) in [(",", ","), ("\\s+", " ")] {
+        let sp = Pattern { name: "f".into(), regex: re.into(), split: true, inline: false };
+        let t1 = Table { patterns: vec![sp.clone()], cols: vec![Col { refs: vec![(0, 1)], ty: "text", modifier: "" }, Col { refs: vec![(0, 2), (0, 3), (0, 4)], ty: "text[]", modifier: "" }] };
+        let t2 = Table { patterns: vec![sp.clone()], cols: vec![Col { refs: vec![(0, 1)], ty: "int", modifier: "" }, Col { refs: vec![(0, 2), (0, 3), (0, 4), (0, 5), (0, 6), (0, 7)], ty: "timestamp", modifier: "" }] };
+        let t3 = Table { patterns: vec![sp.clone()], cols: vec![Col { refs: vec![(0, 3), (0, 1)], ty: "int[]", modifier: "" }, Col { refs: vec![(0, 2)], ty: "text", modifier: "DEFAULT" }, Col { refs: vec![(0, 0)], ty: "text", modifier: "" }] };
+        for l in [vec!["a", "b", "c", "d"], vec!["1", "2021", "3", "4", "5", "6", "7"], vec!["x"], vec!["5", "", "7"], vec!["1", "2", "3", "4", "5", "6", "7", "8", "9"], vec![""]] {
+            for t in [&t1, &t2, &t3] {
+                work.push((t.clone(), l.join(sep), "B2-split-multi-ref"));
+            }
+        }
+    }
+    // TRIM with every kind of Unicode whitespace at either end (and inside)
+    for g in [1usize, 2] {
+        let t = Table { patterns: vec![cap("w", "^<(.*)>,<(.*)>$")], cols: vec![Col { refs: vec![(0, g)], ty: "text", modifier: "TRIM" }, Col { refs: vec![(0, 3 - g)], ty: "text", modifier: "" }] };
+        for ws in [" ", "\t", "\u{b}", "\u{c}", "\u{a0}", "\u{3000}", "\u{2003}", "\u{85}", "\u{2028}", "\u{200b}", "\u{feff}"] {
+            for body in ["alice", "a b", ""] {
+                for form in 0..4 {
+                    let v = match form { 0 => format!("{}{}", ws, body), 1 => format!("{}{}", body, ws), 2 => format!("{}{}{}", ws, body, ws), _ => format!(" {}{}{} ", ws, body, ws) };
+                    work.push((t.clone(), format!("<{}>,<{}>", v, v), "T-trim"));
+                }
+            }
+        }
+    }
     let two = Table { patterns: vec![cap("a", P1), cap("b", P2), Pattern { name: "_pattern2".into(), regex: "id=(\\d+)".into(), split: false, inline: true }], cols: vec![Col { refs: vec![(0, 2)], ty: "int", modifier: "" }, Col { refs: vec![(1, 1)], ty: "int", modifier: "" }, Col { refs: vec![(1, 2)], ty: "text", modifier: "DEFAULT" }, Col { refs: vec![(2, 1)], ty: "int", modifier: "" }, Col { refs: vec![(1, 0)], ty: "text", modifier: "" }] };
     for l in ["k=5 12-ab id=9", "12-ab", "k=5", "id=9", "x 1-a 2-b", "٣-x k=1", "99999999999999999999-z", "k=1 id=٣", "", "k= 7-é_ id=1 id=2"] {
         work.push((two.clone(), l.to_string(), "F-multi-pattern"));
@@ -463,6 +487,15 @@ fn replay_scan() -> Vec<Failure> {
         }
     }
     tables.push(Table { patterns: vec![cap("a", P1), cap("b", P2), Pattern { name: "_pattern2".into(), regex: "id=(\\d+)".into(), split: false, inline: true }], cols: vec![Col { refs: vec![(0, 2)], ty: "int", modifier: "" }, Col { refs: vec![(1, 1)], ty: "int", modifier: "" }, Col { refs: vec![(1, 2)], ty: "text", modifier: "DEFAULT" }, Col { refs: vec![(2, 1)], ty: "int", modifier: "" }, Col { refs: vec![(1, 0)], ty: "text", modifier: "" }] });
+    for re in [",", "\\s+"] {
+        let sp = Pattern { name: "f".into(), regex: re.into(), split: true, inline: false };
+        tables.push(Table { patterns: vec![sp.clone()], cols: vec![Col { refs: vec![(0, 1)], ty: "text", modifier: "" }, Col { refs: vec![(0, 2), (0, 3), (0, 4)], ty: "text[]", modifier: "" }] });
+        tables.push(Table { patterns: vec![sp.clone()], cols: vec![Col { refs: vec![(0, 1)], ty: "int", modifier: "" }, Col { refs: vec![(0, 2), (0, 3), (0, 4), (0, 5), (0, 6), (0, 7)], ty: "timestamp", modifier: "" }] });
+        tables.push(Table { patterns: vec![sp.clone()], cols: vec![Col { refs: vec![(0, 3), (0, 1)], ty: "int[]", modifier: "" }, Col { refs: vec![(0, 2)], ty: "text", modifier: "DEFAULT" }, Col { refs: vec![(0, 0)], ty: "text", modifier: "" }] });
+    }
+    for g in [1usize, 2] {
+        tables.push(Table { patterns: vec![cap("w", "^<(.*)>,<(.*)>$")], cols: vec![Col { refs: vec![(0, g)], ty: "text", modifier: "TRIM" }, Col { refs: vec![(0, 3 - g)], ty: "text", modifier: "" }] });
+    }
     for t in tables {
         if table_sql(&t) == def {
             return judge(&t, &line, "replay", 0).0;
